@@ -17,7 +17,7 @@ Deviations of the current code from the specification are carried explicitly:
   with the flag off the bounds that are known while streaming are applied (proposed fix);
 * `Dev.descentNoSelf`: `PathMatch` returns false on an exhausted path before it looks at the
   fragment, so a descent never matches the node itself (only visible for a target that ENDS in a
-  descent, possibly followed by a filter); flag off = proposed fix;
+  descent, possibly followed by a filter); flag off = the repair, applied in /repo as ba8abfd;
 * `Dev.filterFirstOnly`, a trailing filter: `checkRest` reports one element per collected
   container, with the path of `Locate(v, 1)` — `Filter.locate` lists matches LAST first — and the
   value of `First(v)`, the FIRST match; with the flag off every accepted element is reported with
